@@ -1,8 +1,8 @@
-\* C19: 2 workers, 2 keys, two crashes (thorough)
+\* C19: 2 workers, 2 keys, two crashes (thorough); one write step: empty or whole files only
 CONSTANTS
     NKeys = 2
     W = 2
-    L = 2
+    L = 1
     Design = "temp"
     Policy = "trust"
     RenameAt = "closed"
